@@ -29,6 +29,15 @@ fn wf(src: &str, r: &Range, what: &str, out: &mut Vec<String>) -> bool {
 }
 
 fn text<'a>(src: &'a str, r: &Range) -> &'a str { &src[r.start.offset..r.end.offset] }
+// a non-empty range starts on the first character of a token and ends on the last one (no layout at either end)
+fn tight(src: &str, r: &Range, what: &str, out: &mut Vec<String>) {
+    ev();
+    let t = text(src, r);
+    if t.is_empty() { return; }
+    if t.trim() != t || t.starts_with("/*") || t.starts_with("//") || t.ends_with("*/") {
+        out.push(format!("WITNESS {} range spans {:?}: it includes layout around the tokens; source: {:?}", what, t, src));
+    }
+}
 fn inside(inner: &Range, outer: &Range) -> bool { outer.start.offset <= inner.start.offset && inner.end.offset <= outer.end.offset }
 fn squash(s: &str) -> String {
     // remove whitespace and comments (layouts put them between tokens only)
@@ -46,6 +55,7 @@ fn squash(s: &str) -> String {
 
 fn check_type(src: &str, t: &Type, out: &mut Vec<String>) {
     if !wf(src, &t.symbol_range, "type name", out) || !wf(src, &t.full_range, "type", out) { return; }
+    tight(src, &t.symbol_range, "type name", out); tight(src, &t.full_range, "type", out);
     ev();
     if !inside(&t.symbol_range, &t.full_range) { out.push(format!("WITNESS type `{}`: name range {:?} not inside full range {:?}", t.name, text(src, &t.symbol_range), text(src, &t.full_range))); }
     let name_txt = squash(text(src, &t.symbol_range));
@@ -71,6 +81,7 @@ fn check_type(src: &str, t: &Type, out: &mut Vec<String>) {
 
 fn named(src: &str, name: &str, sym: &Range, full: &Range, what: &str, out: &mut Vec<String>) {
     if !wf(src, sym, what, out) || !wf(src, full, what, out) { return; }
+    tight(src, sym, what, out); tight(src, full, what, out);
     ev();
     if squash(text(src, sym)) != name { out.push(format!("WITNESS {} `{}`: name range spans {:?}; source: {:?}", what, name, text(src, sym), src)); }
     if !inside(sym, full) { out.push(format!("WITNESS {} `{}`: name range not inside full range; source: {:?}", what, name, src)); }
@@ -101,7 +112,8 @@ fn check_doc(src: &str, out: &mut Vec<String>) {
                     named(src, &m.name, &m.symbol_range, &m.full_range, "method", out); members.push((&m.full_range, m.name.clone()));
                     check_type(src, &m.return_type, out);
                     ev(); if !inside(&m.return_type.full_range, &m.full_range) { out.push(format!("WITNESS return type of `{}` outside the method range; source: {:?}", m.name, src)); }
-                    wf(src, &m.transact_code_range, "transact code", out); wf(src, &m.oneway_range, "oneway", out);
+                    if wf(src, &m.transact_code_range, "transact code", out) { tight(src, &m.transact_code_range, "transact code", out); }
+                    if wf(src, &m.oneway_range, "oneway", out) { tight(src, &m.oneway_range, "oneway", out); }
                     let mut prev = m.full_range.start.offset;
                     for a in &m.args {
                         if let Some(n) = &a.name { named(src, n, &a.symbol_range, &a.full_range, "argument", out); } else { wf(src, &a.symbol_range, "argument", out); wf(src, &a.full_range, "argument", out); }
